@@ -402,7 +402,7 @@ func cliView(path string, prof Profile, final map[string]any, rng *rand.Rand) Ev
 		es, _ := d["es"].([]any)
 		for i, k := range ks {
 			m, _ := es[i].(map[string]any)
-			if m["t"] == "b" && k > EmptyKey && k < BigKey {
+			if m["t"] == "b" && k > EmptyKey && k < MaxKey {
 				p := append(append([]int{}, pre...), k)
 				sub, _ := m["b"].(map[string]any)
 				all = append(all, bk{p, sub})
@@ -429,7 +429,7 @@ func cliView(path string, prof Profile, final map[string]any, rng *rand.Rand) Ev
 		asked := 0
 		for i, k := range ks {
 			m, _ := es[i].(map[string]any)
-			if m["t"] != "v" || k <= EmptyKey || k >= BigKey || asked >= 3 {
+			if m["t"] != "v" || k <= EmptyKey || k >= MaxKey || asked >= 3 {
 				continue
 			}
 			asked++
